@@ -280,7 +280,7 @@ def edit_check(ctx, prop, which):
             ctx.vh_json(["soups", ctx.seed, 6000 if ctx.tier == "quick" else 100000, gp])
         elif cfg == "family":
             # the exhaustive name / position / allotment families of ShapeFam.tla (no verdict attached: analysed like the soups)
-            fgp, _, _ = family_gen(ctx, "Syntax_static1.cfg", "c18fam", scope="names")
+            fgp, _, _ = family_gen(ctx, "Syntax_static1.cfg", "c18fam", scope="analysis")
             gp = os.path.join(ctx.work, "family_docs.ndjson")
             with open(gp, "w") as f:
                 for i, g in enumerate(read_ndjson(fgp)):
